@@ -270,8 +270,16 @@ func (e *eng) dirCase(r layRow, sub bool) {
 	}
 	// an earlier command that changes directory must not move the later ones
 	y.WriteString("    before:\n      - cd / && echo moved\n      - echo \"OBS before=[$(/bin/pwd)]\"\n    command:\n      - cd / && echo moved\n      - echo \"OBS command=[$(/bin/pwd)]\"\n    after:\n      - cd / && echo moved\n      - echo \"OBS after=[$(/bin/pwd)]\"\n")
+	// a second task with a dir of its own runs after t in the pipeline: its hooks, its condition and its
+	// commands see their own directory (the shell's idea of it and the real one), whatever ran before
+	du := filepath.Join(d, "d_u")
+	_ = os.MkdirAll(du, 0o755)
+	obs2 := func(pos string) string {
+		return fmt.Sprintf("      - echo \"OBS2 %s=[$(pwd)|$PWD|$(/bin/pwd)]\"\n", pos)
+	}
+	fmt.Fprintf(&y, "  u:\n    dir: %s\n    condition: '[ \"$(pwd)\" = \"%s\" ]'\n    before:\n%s    command:\n%s    after:\n%s", yq(du), du, obs2("before"), obs2("command"), obs2("after"))
 	// (the stage has a condition: it is evaluated where taskctl runs, whatever the stage's dir is)
-	y.WriteString("pipelines:\n  p:\n    - task: t\n      condition: \"true\"\n")
+	y.WriteString("pipelines:\n  p:\n    - task: u\n      depends_on: [t]\n    - task: t\n      condition: \"true\"\n")
 	if r.has(3) {
 		if sub {
 			// written as a template (like the task's): a stage dir replaces the task's dir, it is
@@ -313,6 +321,15 @@ func (e *eng) dirCase(r layRow, sub bool) {
 		got = strings.TrimSuffix(got, "]")
 		if !ok || got != want {
 			add("wrong-directory:"+pos, fmt.Sprintf("%s ran in %q, model %q", pos, got, want))
+		}
+	}
+	if target == "p" {
+		for _, pos := range []string{"before", "command", "after"} {
+			got, ok := find(res.Stdout, "OBS2 "+pos+"=[")
+			got = strings.TrimSuffix(got, "]")
+			if w2 := du + "|" + du + "|" + du; !ok || got != w2 {
+				add("wrong-directory:second-task:"+pos, fmt.Sprintf("%s of the task that runs second (dir %s; shell pwd|$PWD|real) ran in %q", pos, du, got))
+			}
 		}
 	}
 }
